@@ -52,6 +52,9 @@ Proofs/CoreCons.vos Proofs/CoreCons.vok Proofs/CoreCons.required_vos: Proofs/Cor
 Proofs/CoreInit.vo Proofs/CoreInit.glob Proofs/CoreInit.v.beautified Proofs/CoreInit.required_vo: Proofs/CoreInit.v Lib/NumOps.vo Gen/GenProto.vo Model/Core.vo Spec/ProtoSpec.vo Proofs/CoreLemmas.vo Proofs/CoreCons.vo Proofs/CoreOrder.vo Proofs/CoreLife.vo
 Proofs/CoreInit.vio: Proofs/CoreInit.v Lib/NumOps.vio Gen/GenProto.vio Model/Core.vio Spec/ProtoSpec.vio Proofs/CoreLemmas.vio Proofs/CoreCons.vio Proofs/CoreOrder.vio Proofs/CoreLife.vio
 Proofs/CoreInit.vos Proofs/CoreInit.vok Proofs/CoreInit.required_vos: Proofs/CoreInit.v Lib/NumOps.vos Gen/GenProto.vos Model/Core.vos Spec/ProtoSpec.vos Proofs/CoreLemmas.vos Proofs/CoreCons.vos Proofs/CoreOrder.vos Proofs/CoreLife.vos
+Proofs/CoreInv.vo Proofs/CoreInv.glob Proofs/CoreInv.v.beautified Proofs/CoreInv.required_vo: Proofs/CoreInv.v Lib/NumOps.vo Gen/GenProto.vo Model/Core.vo Spec/ProtoSpec.vo Proofs/CoreLemmas.vo Proofs/CoreCons.vo Proofs/CoreOrder.vo Proofs/CoreLife.vo
+Proofs/CoreInv.vio: Proofs/CoreInv.v Lib/NumOps.vio Gen/GenProto.vio Model/Core.vio Spec/ProtoSpec.vio Proofs/CoreLemmas.vio Proofs/CoreCons.vio Proofs/CoreOrder.vio Proofs/CoreLife.vio
+Proofs/CoreInv.vos Proofs/CoreInv.vok Proofs/CoreInv.required_vos: Proofs/CoreInv.v Lib/NumOps.vos Gen/GenProto.vos Model/Core.vos Spec/ProtoSpec.vos Proofs/CoreLemmas.vos Proofs/CoreCons.vos Proofs/CoreOrder.vos Proofs/CoreLife.vos
 Proofs/CoreLemmas.vo Proofs/CoreLemmas.glob Proofs/CoreLemmas.v.beautified Proofs/CoreLemmas.required_vo: Proofs/CoreLemmas.v Lib/NumOps.vo Gen/GenProto.vo Model/Core.vo Spec/ProtoSpec.vo
 Proofs/CoreLemmas.vio: Proofs/CoreLemmas.v Lib/NumOps.vio Gen/GenProto.vio Model/Core.vio Spec/ProtoSpec.vio
 Proofs/CoreLemmas.vos Proofs/CoreLemmas.vok Proofs/CoreLemmas.required_vos: Proofs/CoreLemmas.v Lib/NumOps.vos Gen/GenProto.vos Model/Core.vos Spec/ProtoSpec.vos
